@@ -198,6 +198,192 @@ MUTANTS = [
     ("fixrevert_d10_unicode_repeatability", [(CEP, r"REPEATABILITY: /[0-9]+\.{2}[1-9][0-9]*/", r"REPEATABILITY: /\d+\.{2}[1-9]\d*/")], ["C02"]),
     ("fixrevert_d7_931_midnight", [(TAG, "    if utc_offset == timedelta(0):", "    if utc_offset == timedelta(0) and date_time.time() == time(0, 0, 0):")], ["C20"]),
     ("fixrevert_d8_overflow", [(TAG, "    except OverflowError as overflow_error:", "    except ZeroDivisionError as overflow_error:")], ["C20"]),
+    ("fixrevert_d4_soll_flag", [(VAL, """            tasks.append(
+                validate_data_element(data_element, segment_validation.requirement_validation, soll_is_required)
+            )
+""", """            tasks.append(validate_data_element(data_element, segment_validation.requirement_validation))
+""")], ["C14", "C13"]),
+    ("fixrevert_d5_is_not_assignment", [(VAL, "        requirement_validation_data_element = RequirementValidationValue.IS_FORBIDDEN\n        hints = None", "        requirement_validation_data_element is RequirementValidationValue.IS_FORBIDDEN\n        hints = None")], ["C17"]),
+    ("fixrevert_d6_allow_none", [(ER, "    requirement_constraints_fulfilled = fields.Boolean(allow_none=True)  # None: outcome is unknown\n    requirement_is_conditional = fields.Boolean(allow_none=True)", "    requirement_constraints_fulfilled = fields.Boolean()\n    requirement_is_conditional = fields.Boolean()")], ["C19"]),
+    # ---- C02 ---------------------------------------------------------------------------------------------------------
+    ("c02_unexpected_eof_not_caught", [(CEP, "    except (UnexpectedEOF, UnexpectedCharacters, TypeError) as eof:", "    except (UnexpectedCharacters, TypeError) as eof:")], ["C02"]),
+    ("ok_c02_ahb_character_class_accepts_letter_n", [(AEP, r"CONDITION_EXPRESSION: /(?!\BU\B)[\[\]\(\)U∧O∨X⊻\d\sP\.UB]+/i", r"CONDITION_EXPRESSION: /(?!\BU\B)[\[\]\(\)U∧O∨X⊻\d\sP\.UBN]+/i")], ["C02", "C09"]),
+    ("c02_repeatability_allows_single_dot_or_three", [(CEP, r"REPEATABILITY: /[0-9]+\.{2}[1-9][0-9]*/", r"REPEATABILITY: /[0-9]+\.{2,3}[1-9][0-9]*/")], ["C02"]),
+    ("c02_validity_check_swallows_syntax_error_as_valid", [(CE, """        except SyntaxError as syntax_error:
+            return False, str(syntax_error)""", """        except SyntaxError as syntax_error:
+            return False, syntax_error.text""")], ["C02"]),
+    # ---- C04 ---------------------------------------------------------------------------------------------------------
+    ("c04_then_also_unknown_partner_fulfilled", [(RCE, """            evaluated_composition = EvaluatedComposition(conditions_fulfilled=other_condition.conditions_fulfilled)
+            format_constraint_is_required""", """            evaluated_composition = EvaluatedComposition(
+                conditions_fulfilled=(
+                    ConditionFulfilledValue.FULFILLED
+                    if other_condition.conditions_fulfilled == ConditionFulfilledValue.UNKNOWN
+                    and isinstance(other_condition, EvaluatedComposition)
+                    else other_condition.conditions_fulfilled
+                )
+            )
+            format_constraint_is_required""")], ["C04"]),
+    ("c04_neutral_reported_conditional", [(RCE, """        requirement_constraints_fulfilled = True
+        requirement_is_conditional = False
+""", """        requirement_constraints_fulfilled = True
+        requirement_is_conditional = isinstance(resulting_condition_node, EvaluatedComposition)
+""")], ["C04"]),
+    # ---- C05 ---------------------------------------------------------------------------------------------------------
+    ("c05_xor_asymmetric_unknown", [(CN, """        if ConditionFulfilledValue.UNKNOWN in (self, other):
+            return ConditionFulfilledValue.UNKNOWN
+        if self == ConditionFulfilledValue.FULFILLED and other == ConditionFulfilledValue.FULFILLED:
+            return ConditionFulfilledValue.UNFULFILLED
+        if ConditionFulfilledValue.FULFILLED in (self, other):""", """        if other == ConditionFulfilledValue.UNKNOWN:
+            return ConditionFulfilledValue.UNKNOWN
+        if self == ConditionFulfilledValue.UNKNOWN:
+            return ConditionFulfilledValue.UNKNOWN if other == ConditionFulfilledValue.UNFULFILLED else other
+        if self == ConditionFulfilledValue.FULFILLED and other == ConditionFulfilledValue.FULFILLED:
+            return ConditionFulfilledValue.UNFULFILLED
+        if ConditionFulfilledValue.FULFILLED in (self, other):""")], ["C05", "C03"]),
+    ("c05_hint_on_left_of_and_under_then_drops_state", [(RCE, """        if other_condition.conditions_fulfilled != ConditionFulfilledValue.NEUTRAL:
+            evaluated_composition = EvaluatedComposition(conditions_fulfilled=other_condition.conditions_fulfilled)""", """        if other_condition.conditions_fulfilled != ConditionFulfilledValue.NEUTRAL:
+            evaluated_composition = EvaluatedComposition(
+                conditions_fulfilled=(
+                    ConditionFulfilledValue.FULFILLED
+                    if getattr(other_condition, "hint", None) and other_condition.conditions_fulfilled == ConditionFulfilledValue.UNKNOWN
+                    else other_condition.conditions_fulfilled
+                )
+            )""")], ["C05", "C04"]),
+    # ---- C06 ---------------------------------------------------------------------------------------------------------
+    ("c06_validity_depends_on_state", [(RCE, """            left.conditions_fulfilled == ConditionFulfilledValue.NEUTRAL
+            and right.conditions_fulfilled != ConditionFulfilledValue.NEUTRAL
+            or (""", """            left.conditions_fulfilled == ConditionFulfilledValue.NEUTRAL
+            and right.conditions_fulfilled not in (ConditionFulfilledValue.NEUTRAL, ConditionFulfilledValue.UNKNOWN)
+            or (""")], ["C06"]),
+    ("c06_hint_fc_check_one_direction_only", [(RCE, """        if (isinstance(left, Hint) and isinstance(right, UnevaluatedFormatConstraint)) or (
+            isinstance(right, Hint) and isinstance(left, UnevaluatedFormatConstraint)
+        ):""", """        if isinstance(left, Hint) and isinstance(right, UnevaluatedFormatConstraint):""")], ["C06"]),
+    # ---- C07 ---------------------------------------------------------------------------------------------------------
+    ("c07_connect_without_brackets_around_prefix", [(EB, """            prefix = f"({self._expression}) {operator_character}\"""", """            prefix = f"{self._expression} {operator_character}\"""")], ["C07"]),
+    ("c07_then_also_attaches_for_unknown", [(RCE, "            format_constraint_is_required = other_condition.conditions_fulfilled == ConditionFulfilledValue.FULFILLED", "            format_constraint_is_required = other_condition.conditions_fulfilled != ConditionFulfilledValue.UNFULFILLED")], ["C07"]),
+    ("c07_bracket_stripping_greedy", [(EB, r"""_one_key_surrounded_by_brackets_pattern = re.compile(r"\((?P<body>\[\d+\])\)")""", r"""_one_key_surrounded_by_brackets_pattern = re.compile(r"\((?P<body>\[\d+\][^()]*)\)")""")], ["C07"]),
+    # ---- C08 ---------------------------------------------------------------------------------------------------------
+    ("c08_lor_message_when_only_right_unfulfilled", [(EB, """        if self.format_constraint_fulfilled is False and other.format_constraint_fulfilled is False:
+            self._expression = f"'{self._expression}' oder '{other.error_message}'\"""", """        if self.format_constraint_fulfilled is False or other.format_constraint_fulfilled is False:
+            self._expression = f"'{self._expression}' oder '{other.error_message}'\"""")], ["C08"]),
+    ("c08_xor_both_fulfilled_without_message", [(EB, """        elif self.format_constraint_fulfilled is True and other.format_constraint_fulfilled is True:
+            self._expression = "Zwei exklusive Formatdefinitionen dürfen nicht gleichzeitig erfüllt sein\"""", """        elif self.format_constraint_fulfilled is True and other.format_constraint_fulfilled is True:
+            self._expression = self._expression""")], ["C08"]),
+    # ---- C09 ---------------------------------------------------------------------------------------------------------
+    ("c09_select_not_false_instead_of_truthy", [(AEE, """            if (
+                single_requirement_indicator_expression.requirement_constraint_evaluation_result.requirement_constraints_fulfilled
+            ):""", """            if (
+                single_requirement_indicator_expression.requirement_constraint_evaluation_result.requirement_constraints_fulfilled
+                is not False
+            ):""")], ["C09"]),
+    ("c09_falls_back_to_first_part", [(AEE, "        return results[-1]", "        return results[0]")], ["C09"]),
+    # ---- C10 ---------------------------------------------------------------------------------------------------------
+    ("c10_ub3_without_own_subtree", [(RES, """            return parse_condition_expression_to_tree("[932][492]X[934][493]")""", """            return parse_condition_expression_to_tree("[932][492]X[934][492]")""")], ["C10"]),
+    ("c10_unresolved_package_left_in_place", [(RES, """        if not resolved_package.has_been_resolved_successfully():
+            raise NotImplementedError""", """        if not resolved_package.has_been_resolved_successfully() and package_key_token.value not in ("4711P",):
+            return Tree("package", [package_key_token])
+        if not resolved_package.has_been_resolved_successfully():
+            raise NotImplementedError""")], ["C10"]),
+    ("c10_replace_by_equality", [(RES, """                if child == coro:
+                    sub_tree.children[child_index] = sub_result""", """                if type(child) is type(coro):
+                    sub_tree.children[child_index] = sub_result""")], ["C10"]),
+    # ---- C11 ---------------------------------------------------------------------------------------------------------
+    ("c11_copy_one_level_only", [(UTIL, "        return copy.deepcopy(tree_result)", "        shallow = tree_result.copy()\n        shallow.children = list(shallow.children)\n        return shallow")], ["C11"]),
+    # ---- C13 ---------------------------------------------------------------------------------------------------------
+    ("c13_segments_before_subgroups", [(VAL, """        # validation of child_segment_group s
+        if segment_group.segment_groups:
+            for child_segment_group in segment_group.segment_groups:
+                tasks.append(
+                    validate_segment_group(
+                        child_segment_group,
+                        segment_group_validation.requirement_validation,
+                        soll_is_required,
+                    )
+                )
+
+        # validation of child segments
+        if segment_group.segments:
+            for segment in segment_group.segments:
+                tasks.append(
+                    validate_segment(
+                        segment,
+                        segment_group_validation.requirement_validation,
+                        soll_is_required,
+                    )
+                )
+""", """        # validation of child segments
+        if segment_group.segments:
+            for segment in segment_group.segments:
+                tasks.append(
+                    validate_segment(
+                        segment,
+                        segment_group_validation.requirement_validation,
+                        soll_is_required,
+                    )
+                )
+
+        # validation of child_segment_group s
+        if segment_group.segment_groups:
+            for child_segment_group in segment_group.segment_groups:
+                tasks.append(
+                    validate_segment_group(
+                        child_segment_group,
+                        segment_group_validation.requirement_validation,
+                        soll_is_required,
+                    )
+                )
+""")], ["C13"]),
+    ("c13_optional_parent_keeps_required_child", [(VAL, """        if child_level_requirement is RequirementValidationValue.IS_REQUIRED:
+            return RequirementValidationValue.IS_OPTIONAL  # TODO""", """        if child_level_requirement is RequirementValidationValue.IS_REQUIRED and False:
+            return RequirementValidationValue.IS_OPTIONAL  # TODO""")], ["C13"]),
+    ("c13_no_pruning_below_forbidden_segment", [(VAL, """    if segment_validation.requirement_validation is RequirementValidationValue.IS_FORBIDDEN:
+        validation_results_in_context_data_elements = []""", """    if segment_validation.requirement_validation is RequirementValidationValue.IS_FORBIDDEN and segment_group_requirement is None:
+        validation_results_in_context_data_elements = []""")], ["C13"]),
+    # ---- C14 ---------------------------------------------------------------------------------------------------------
+    ("c14_flag_dropped_in_recursive_group_call", [(VAL, """                    validate_segment_group(
+                        child_segment_group,
+                        segment_group_validation.requirement_validation,
+                        soll_is_required,
+                    )""", """                    validate_segment_group(
+                        child_segment_group,
+                        segment_group_validation.requirement_validation,
+                    )""")], ["C14"]),
+    # ---- C15 ---------------------------------------------------------------------------------------------------------
+    ("c15_text_set_before_gather", [(VAL, """        for data_element in segment.data_elements:
+            tasks.append(""", """        for data_element in segment.data_elements:
+            fc_evaluators.text_to_be_evaluated_by_format_constraint.set(data_element.entered_input)
+            tasks.append("""), (VAL, """    fc_evaluators.text_to_be_evaluated_by_format_constraint.set(data_element.entered_input)
+    try:
+        evaluation_result = await evaluate_ahb_expression_tree(expression_tree)
+    except InvalidExpressionError as invalid_expr_error:
+        validation_logger.warning(
+            "The expression '%s' @ '%s' is invalid. Returning IS_OPTIONAL",""", """    if segment_requirement is None:
+        fc_evaluators.text_to_be_evaluated_by_format_constraint.set(data_element.entered_input)
+    try:
+        evaluation_result = await evaluate_ahb_expression_tree(expression_tree)
+    except InvalidExpressionError as invalid_expr_error:
+        validation_logger.warning(
+            "The expression '%s' @ '%s' is invalid. Returning IS_OPTIONAL",""")], ["C15"]),
+    # ---- C16 ---------------------------------------------------------------------------------------------------------
+    ("c16_invalid_pool_entry_not_selectable", [(VAL, """                        requirement_constraint_evaluation_result=RequirementConstraintEvaluationResult(
+                            requirement_constraints_fulfilled=True,
+                            requirement_is_conditional=True,""", """                        requirement_constraint_evaluation_result=RequirementConstraintEvaluationResult(
+                            requirement_constraints_fulfilled=False,
+                            requirement_is_conditional=True,""")], ["C16"]),
+    ("c16_invalid_segment_level_keeps_parent_status", [(VAL, """        return SegmentLevelValidationResult(
+            hints=invalid_expr_error.error_message, requirement_validation=RequirementValidationValue.IS_OPTIONAL
+        )""", """        return SegmentLevelValidationResult(
+            hints=invalid_expr_error.error_message,
+            requirement_validation=parent_segment_group_requirement or RequirementValidationValue.IS_OPTIONAL,
+        )""")], ["C16"]),
+    # ---- C17 ---------------------------------------------------------------------------------------------------------
+    ("c17_single_entry_shortcut_for_two", [(VAL, "        if len(data_element.value_pool) == 1:", "        if len(data_element.value_pool) <= 2 and not data_element.value_pool[-1].ahb_expression.strip().upper().startswith(\"X\"):")], ["C17"]),
+    ("c17_unexpected_value_not_flagged_when_pool_member", [(VAL, """        elif data_element.entered_input:
+            fc_validation_result = False""", """        elif data_element.entered_input:
+            fc_validation_result = data_element.entered_input in [entry.qualifier for entry in data_element.value_pool]""")], ["C17"]),
+    # ---- C19 ---------------------------------------------------------------------------------------------------------
+    ("c19_none_hints_not_loadable", [("src/ahbicht/models/content_evaluation_result.py", "    hints = fields.Dict(keys=fields.String(allow_none=False), values=fields.String(allow_none=True), required=True)", "    hints = fields.Dict(keys=fields.String(allow_none=False), values=fields.String(allow_none=False), required=True)")], ["C19"]),
+    ("c19_token_type_lost_for_repeatability", [(TS, """        return Token(data["type"], data["value"])""", """        return Token(data["type"] if data["type"] != "REPEATABILITY" else "CONDITION_KEY", data["value"])""")], ["C19"]),
 ]
 
 
